@@ -35,6 +35,11 @@ def gen_cases(ck):
         cases.append({"type": "lattice", "seed": int(ck.rng.integers(1 << 30)), "tissue": "brick", "nx": 3, "ny": 3, "kmin": 0, "kmax": 0,
                       "angle": [0.0, float(ck.rng.uniform(0, 6.28))][i % 2], "scale": 1.0, "limit": None, "rhs": "static", "method": None,
                       "fit": "dlite", "noise": 0.0})
+    for i in range(2 if ck.tier == "quick" else 8):
+        # the boundary of "at least the limit": axis-parallel brick lattices have junctions that open by exactly pi (exact in
+        # floating point and in the model), solved with angle_limit = pi
+        cases.append({"type": "lattice", "seed": int(ck.rng.integers(1 << 30)), "tissue": "brick", "nx": 3 + i % 3, "ny": 3 + (i // 3) % 2, "kmin": 0, "kmax": 0,
+                      "angle": 0.0, "scale": 1.0, "limit": "pi", "rhs": "static", "method": None, "fit": "dlite", "noise": 0.0, "exact": True})
     return cases
 
 
@@ -129,14 +134,14 @@ def run_case(ck, case, reqs, pending):
         angs = [math.acos(max(-1.0, min(1.0, (a * b.conjugate()).real))) for a, b in itertools.combinations(dirs, 2)]
         amax = max(angs) if angs else 0.0
         if lim is not None:
-            if abs(amax - lim) < MARGIN:
+            if abs(amax - lim) < (MARGIN if not case.get("exact") else 0.0) or (case.get("exact") and 0 < abs(amax - lim) < 1e-9):
                 near = True
             if amax >= lim:
                 want_del.add(v)
         # exact-vs-float branch safety for K: the code's own versors
         vs = [frame.big_edges[i].get_versor_from_vertex(v, fit_method=fit) for i in own[v]]
         for a, b in itertools.combinations(vs, 2):
-            if lim is not None and abs(float(np.dot(a, b)) - math.cos(lim)) < 1e-9:
+            if lim is not None and abs(float(np.dot(a, b)) - math.cos(lim)) < 1e-9 and not (case.get("exact") and float(np.dot(a, b)) == math.cos(lim)):
                 code_near = True
     if lim is None:
         if deletes or used != internal:
